@@ -161,3 +161,10 @@ impl<Store: StorageData> PathSearchHandler for PathHandler<'_, Store> {
         }
     }
 }
+
+// Verification hook (inactive unless built with `--cfg agdb_verif` under Kani).
+#[cfg(all(agdb_verif, kani))]
+#[allow(unused, dead_code, clippy::all)]
+pub(crate) mod verif_h {
+    include!(concat!(env!("AGDB_VERIF_HARNESS"), "/db_search_handlers_h.rs"));
+}
